@@ -176,10 +176,12 @@ def all_obligations():
          expect=['bits_need: the word is appended big-endian', 'bits_dump: removes exactly'], replayable=True))
 
     # ---------------- decode.c
-    A(Ob(name='decode.delta_step', props=['C05', 'C06'], kind='lemma', harness='h_decode.c', entry='h_delta_step',
-         what='every 6-bit delta window of the real retrieve() (L[]/R[] tables + range test), from every reachable length value, '
-              'is accepted iff strict step-by-step bzip2 1.0.x decoding accepts it, with the same resulting length/consumed bits',
-         functions=['retrieve (code-length delta section)', 'L[] R[] (tables)'], flags=['--unwind', '8', '--unwinding-assertions'],
-         expect=['delta window accepted by the table-driven decoder stays within', 'delta window rejected by the table-driven'],
-         canaries=['CANARY delta accept path reached'], replayable=True))
+    for j, as_, t in [(0, 3, 0), (2, 258, 5)]:
+        A(Ob(name=f'decode.delta_step.j{j}', props=['C05', 'C06'], kind='lemma', harness='h_decode.c', entry='h_delta_step',
+             what='every 6-bit delta window of the real retrieve() (L[]/R[] tables + range test), from every length value 0..31 the code can hold, '
+                  'is accepted iff strict step-by-step bzip2 1.0.x decoding accepts it, with the same resulting length/consumed bits',
+             functions=['retrieve (code-length delta section)', 'L[] R[] (tables)'], flags=['--unwind', '8', '--unwinding-assertions'],
+             defines={'DELTA_J': str(j), 'DELTA_AS': str(as_), 'DELTA_T': str(t)},
+             expect=['delta window accepted by the table-driven decoder stays within', 'delta window rejected by the table-driven'],
+             canaries=['CANARY delta accept path reached'], replayable=True, stream_replay='delta'))
     return obs
